@@ -23,7 +23,9 @@ fn x_bps(r: f64, p: f64) -> f64 {
 }
 
 #[derive(Clone, Copy, Debug, PartialEq)]
-pub enum Ev { Sent, Fb { rtt: u64, recv: u32, loss: f64, rl: bool, gap: u64 }, NoFb { gap: u64 } }
+pub enum Ev { Sent, Fb { rtt: u64, recv: u32, loss: f64, rl: bool, gap: u64 }, NoFb { gap: u64 },
+              /// a long silence while transmitting: n times (frame sent; step without feedback after `gap` ms), each step checked like NoFb
+              Silence { gap: u64, n: u32 } }
 
 pub fn alphabet(full: bool) -> Vec<Ev> {
     let rtts: &[u64] = if full { &[0, 1, 100, 3000] } else { &[1, 100] };
@@ -34,6 +36,8 @@ pub fn alphabet(full: bool) -> Vec<Ev> {
     let mut a = vec![Ev::Sent];
     for &rtt in rtts { for &recv in recvs { for &loss in losses { for rl in [false, true] { for &gap in fgaps { a.push(Ev::Fb { rtt, recv, loss, rl, gap }); } } } } }
     for &gap in gaps { a.push(Ev::NoFb { gap }); }
+    a.push(Ev::Silence { gap: 5000, n: 14 });
+    if full { a.push(Ev::Silence { gap: 1_000_000, n: 40 }); }
     a
 }
 
@@ -47,7 +51,8 @@ pub fn run_seq(ceil: u32, seq: &[Ev], for_c03: bool) -> (Vec<Violation>, u64, Op
         let mut now = 0u64;
         s.notify_frame_sent(now);
         let mut loss_mode = false; let mut p_cur = 0.0f64; let mut prev_loss = 0.0f64; let mut h = 0xcbf29ce484222325u64;
-        for (k, ev) in seq.iter().enumerate() {
+        let expanded: Vec<Ev> = seq.iter().flat_map(|e| match *e { Ev::Silence { gap, n } => (0..n).flat_map(|_| [Ev::Sent, Ev::NoFb { gap }]).collect::<Vec<_>>(), e => vec![e] }).collect();
+        for (k, ev) in expanded.iter().enumerate() {
             let x0 = s.send_rate(); let r0 = s.rtt_s();
             match *ev {
                 Ev::Sent => { s.notify_frame_sent(now); if s.send_rate() != x0 { push(&mut v, "C14.sent:rate-changed", format!("notify_frame_sent changed the rate from {} to {}", x0, s.send_rate())); } }
@@ -78,11 +83,12 @@ pub fn run_seq(ceil: u32, seq: &[Ev], for_c03: bool) -> (Vec<Violation>, u64, Op
                     s.step(now, None, |_| {});
                     let x1 = s.send_rate();
                     if x1 > x0 { push(&mut v, "C14.nofeedback:increase", format!("event {}: the rate rose from {} to {} although no feedback arrived", k, x0, x1)); }
-                    if x1 < (x0 / 2.0).floor() - 1.0 && x1 < FLOOR.min(x0) { push(&mut v, "C14.nofeedback:below-floor", format!("event {}: a nofeedback expiry took the rate from {} to {}, below min(X, s/64)", k, x0, x1)); }
+                    if x1 < FLOOR.min(x0) - 0.5 { push(&mut v, "C14.nofeedback:below-floor", format!("event {}: a nofeedback expiry took the rate from {} to {}, below min(X, s/64)", k, x0, x1)); }
                     else if x1 < (x0 / 2.0).floor() - 1.0 && x1 >= FLOOR { push(&mut v, "C14.nofeedback:more-than-halved", format!("event {}: a single step without feedback took the rate from {} to {} (more than halved)", k, x0, x1)); }
                     if x1 > ceil as f64 { push(&mut v, "C14.ceiling:nofeedback", format!("event {}: rate {} above the configured maximum {} after a nofeedback expiry", k, x1, ceil)); }
                     if s.rtt_s() != r0 { push(&mut v, "C14.rtt:changed-without-sample", format!("event {}: RTT estimate changed without a sample", k)); }
                 }
+                Ev::Silence { .. } => unreachable!(),
             }
             h = fnv(h, s.send_rate() as u64); h = fnv(h, s.rto_ms().unwrap_or(0));
         }
@@ -97,7 +103,7 @@ pub fn run_seq(ceil: u32, seq: &[Ev], for_c03: bool) -> (Vec<Violation>, u64, Op
 }
 
 pub fn encode(ceil: u32, seq: &[Ev]) -> String {
-    let evs: Vec<String> = seq.iter().map(|e| match e { Ev::Sent => "S".to_string(), Ev::Fb { rtt, recv, loss, rl, gap } => format!("F,{},{},{},{},{}", rtt, recv, loss, *rl as u8, gap), Ev::NoFb { gap } => format!("N,{}", gap) }).collect();
+    let evs: Vec<String> = seq.iter().map(|e| match e { Ev::Sent => "S".to_string(), Ev::Fb { rtt, recv, loss, rl, gap } => format!("F,{},{},{},{},{}", rtt, recv, loss, *rl as u8, gap), Ev::NoFb { gap } => format!("N,{}", gap), Ev::Silence { gap, n } => format!("L,{},{}", gap, n) }).collect();
     format!("case:tfrc:{}:{}", ceil, evs.join(";"))
 }
 
@@ -107,7 +113,7 @@ pub fn decode(case: &str) -> Option<(u32, Vec<Ev>)> {
     let mut seq = Vec::new();
     for e in evs.split(';').filter(|x| !x.is_empty()) {
         let f: Vec<&str> = e.split(',').collect();
-        seq.push(match f[0] { "S" => Ev::Sent, "F" => Ev::Fb { rtt: f[1].parse().ok()?, recv: f[2].parse().ok()?, loss: f[3].parse().ok()?, rl: f[4] == "1", gap: f[5].parse().ok()? }, _ => Ev::NoFb { gap: f[1].parse().ok()? } });
+        seq.push(match f[0] { "S" => Ev::Sent, "F" => Ev::Fb { rtt: f[1].parse().ok()?, recv: f[2].parse().ok()?, loss: f[3].parse().ok()?, rl: f[4] == "1", gap: f[5].parse().ok()? }, "L" => Ev::Silence { gap: f[1].parse().ok()?, n: f[2].parse().ok()? }, _ => Ev::NoFb { gap: f[1].parse().ok()? } });
     }
     Some((c.parse().ok()?, seq))
 }
@@ -152,7 +158,7 @@ pub fn build(quick: bool) -> PropRun {
     let plans: Vec<(bool, usize)> = if quick { vec![(false, 5), (true, 3)] } else { vec![(false, 6), (true, 4)] };
     PropRun { level: "model_checking", scenarios: vec![], units: units(&plans, false), replay_case: Some(replay_case), summary: Summary {
         rule: "every sequence of events {frame sent; step with feedback f; step without feedback after gap g} up to the stated length over the boundary alphabet is applied to a fresh real SendRateComp (3 ceilings); after every event rate and RTT estimate are compared with bounds from the RFC 5348 formulas; distinct = distinct final (rate, RTO) trajectory hash".into(),
-        bounds: json!({"plans(full_alphabet,length)": plans, "reduced_alphabet": format!("{} letters", alphabet(false).len()), "full_alphabet": format!("{} letters: rtt {{0,1,100,3000}} ms x receive rate {{0,1000,1e6,2^32-1}} x loss {{0,1e-4,0.1,1}} x rate_limited x gap {{1,100}} ms; silence {{0,1,100,5000,1e6}} ms; frame sent", alphabet(true).len()), "ceilings": [1472, 10_000, "2^32-1"]}),
+        bounds: json!({"plans(full_alphabet,length)": plans, "reduced_alphabet": format!("{} letters", alphabet(false).len()), "full_alphabet": format!("{} letters: rtt {{0,1,100,3000}} ms x receive rate {{0,1000,1e6,2^32-1}} x loss {{0,1e-4,0.1,1}} x rate_limited x gap {{1,100}} ms; silence {{0,1,100,5000,1e6}} ms; frame sent; long silences while transmitting (14 x 5 s, 40 x 1000 s, every step checked)", alphabet(true).len()), "ceilings": [1472, 10_000, "2^32-1"]}),
         assumptions: vec!["the loss event rate in force after the step that leaves slow start is the value handed to the reset_loss_rate callback (5 % tolerance of the code's own inverse plus 1 %), the reported value afterwards".into(),
                           "integer rates: tolerance of 1 B/s on every comparison".into()],
         witness_names: vec![], extra: json!({}), exhaustive: true } }
